@@ -9,7 +9,7 @@ open Tongo Tongo.Bits
 `v`; when the type is known not to be greedy (`ng`) it leaves exactly the rest, otherwise the chunk must be the
 tail of the cell. -/
 def RT (dec : Slice → Outcome (Val × Slice)) (ng : Prop) (v : Val) (xs : List Bool) (rs : List Cell) : Prop :=
-  ∀ s : Slice, s.isLibrary = false → (ng ∨ (s.bits = [] ∧ s.refs = [])) →
+  ∀ s : Slice, s.isLibrary = false → (ng ∨ (s.bits = [] ∧ s.refs = [] ∧ s.isPruned = false)) →
     ∃ s', dec (s.prepend xs rs) = .ok (v, s') ∧ (ng → s' = s)
 
 /-- the strong form: the decoder consumes exactly the chunk, whatever follows -/
